@@ -1,10 +1,10 @@
 """pyvc - a small verification-condition generator for the Python subset used by cisco_acl's kernels."""
 from .engine import Engine
-from .expr import ExprMixin
+from .expr import ExprMixin, CompMixin
 from .stmt import StmtMixin
 from .calls import CallMixin
 from .builtins_ import BuiltinMixin
 
 
-class VC(ExprMixin, StmtMixin, CallMixin, BuiltinMixin, Engine):
+class VC(ExprMixin, CompMixin, StmtMixin, CallMixin, BuiltinMixin, Engine):
     pass
